@@ -85,8 +85,11 @@ def run(tier):
     # tiny codes: unpruned enumeration as well
     tiny = [r for r in recs if r['n'] <= (7 if tier == 'quick' else 8)]
     brej, bst = common.eval_records('C17_Brute', tiny, 'c17b', shards=16)
+    # d must be the weight of some genuine logical operator (upper bound on the
+    # true distance); the search shows that nothing lighter exists (lower bound)
+    wrej_all, wst = common.eval_records('C17_Witness', [r for r in recs if r['k'] > 0], 'c17w', shards=16)
     for r in recs:
-        cl = set(rej.get(r['id'], ())) | set(brej.get(r['id'], ()))
+        cl = set(rej.get(r['id'], ())) | set(brej.get(r['id'], ())) | set(wrej_all.get(r['id'], ()))
         if cl:
             v.reject(f"C17:{r['_label']}", {'label': r['_label'], 'd': r['d'],
                                             'n': r['n'],
@@ -99,9 +102,16 @@ def run(tier):
     missed = [r['_label'] for r in st
               if 'lighter_logical_exists' not in srej.get(r['id'], ())]
     if missed:
-        raise common.MachineryError(
-            'pruned distance search failed to find an existing logical of '
-            f'weight d on {missed[:5]} (pruning lemma / spec bug)')
+        # no logical of weight <= d was found.  Either the search is at fault,
+        # or the reported d is not the weight of any logical operator (the
+        # code's own listed operator of that weight is not a logical): TLC
+        # decides on the listed operators (C17_Witness.tla)
+        mrecs = [r for r in recs if r['_label'] in set(missed)]
+        at_fault = [r['_label'] for r in mrecs if r['id'] not in wrej_all]
+        if at_fault:
+            raise common.MachineryError(
+                'pruned distance search failed to find an existing logical of '
+                f'weight d on {at_fault[:5]} (pruning lemma / spec bug)')
     rc = v.finish()
     common.write_evidence(
         'C17', tier, 'model_checking',
